@@ -299,9 +299,9 @@ def calibration_cases(draw, N=4000, N_synd=2000):
 
 def run(ctx):
     quick = ctx.tier == 'quick'
-    ctx.run_hypothesis('consistency_cases', 240 if quick else 5000,
+    ctx.run_hypothesis('consistency_cases', 240 if quick else 3000,
                        max_total=60 if quick else 300)
-    ctx.run_hypothesis('calibration_cases', 32 if quick else 480,
+    ctx.run_hypothesis('calibration_cases', 32 if quick else 320,
                        N=3000 if quick else 40000, N_synd=1500 if quick else 20000)
     ctx.note('calibration_samples', sorted(ctx.aux, key=lambda a: a['setup'])[:12])
     if ctx.aux:
